@@ -64,6 +64,10 @@ let () =
                  read_stream (flag aes) okey raw (nats ss) (flag early) (nats cs)
                | _ -> Res.Err Res.Other
              end
+             else if flag aes then
+               (* C10: the independent reading of ISO 32000 7.6.3.1 - an AES stream is an IV followed by at least one
+                  block, the last one carrying the padding (the library's own reader also accepts a bare IV) *)
+               decrypt_bytes true okey raw
              else decrypt_stream (flag aes) okey raw in
            match r with Res.Ok d -> hx d | Res.Err _ -> "ERR")
        | Res.Err c ->
